@@ -313,6 +313,8 @@ def random_spec(rng, **o):
             others = [c for c in range(nc) if c != pk]
             T[t][:, others[0]] = T[t][:, pk] * np.float32(0.5)
             T[t][:, others[1]] = 0
+    if g('flat_template', False):
+        T[int(rng.integers(0, nt))] = 0            # a template without any signal (it may still own spikes)
     T = T.astype(g('dtype_templates', 'float32'))
     s.templates = T
     if g('sparse_templates', False):
@@ -342,6 +344,9 @@ def random_spec(rng, **o):
         s.wm = wm
     if g('wmi_file', False):
         s.wmi_file = np.linalg.inv(s.wm_eff)
+    if g('wmi_only', False) and s.wm is not None:
+        s.wmi_file = np.linalg.inv(s.wm)           # only the inverse matrix is shipped
+        s.wm = None
     if g('similar', False):
         s.similar_templates = rng.uniform(0, 1, size=(nt, nt))
 
